@@ -72,6 +72,13 @@ CLAIMED = {
             "z[:,a,:], shape [n,R,D]), deterministic in the key, depending on the stream only through its own draw and component, with no "
             "other randomness. The law N(mu, Sigma) then follows from the assumed contracts of cholesky / random.normal and G3; statistical "
             "moment clauses are not part of this technique.", BASE_NOTE, "DESIGN §6-C19, §11"),
+    "C20": ("For every configuration of the limits (finite / omitted / explicitly infinite), un-normalised measure or density base, R generic "
+            "or 1: evaluation == u(x)*1[a<=x<=b] (both modes), integrals of 1, x, x^2 and x^k for k = 0..6 (lax.scan unrolled) == mass * "
+            "sum_i C(k,i) sigma^i mu^(k-i) J_i with J_i from the integration-by-parts recursion (axiom G4), additivity over adjacent "
+            "intervals and half lines, and the normalised density (from get_density and built directly) with its mean and variance are "
+            "proved symbolically in Phi / phi atoms. misc.normal_cdf body proved against Phi by case split; misc.binom is a bounded "
+            "stand-in (exhaustive 0 <= i <= k <= 12). Far-tail floating-point cancellation is not covered.",
+            BASE_NOTE + " G4 assumed; truncated mass > 0 (a < b) is a precondition.", "DESIGN §6-C20"),
     "C10": ("For every conditional kind and both batch conventions, the real set_y + evaluate_ln/product are executed on symbolic "
             "arrays with symbolic sizes N, Nx, Dx, Dy and the result is proved equal (normal form) to ln N(y; Mx+b, Sigma); "
             "holds for all sizes and values at once.", BASE_NOTE, "DESIGN §6-C10"),
